@@ -456,8 +456,13 @@ impl RefCountTable {
 	}
 
 	pub fn drop_file(self) -> Result<()> {
-		drop(self.map);
-		try_io!(std::fs::remove_file(self.path.as_path()));
+		// The file is created by the first `enact_plan` into this table: a table that was
+		// queued for reindex before anything was written to it has none, and there is nothing
+		// to remove.
+		let created = self.map.into_inner().is_some();
+		if created {
+			try_io!(std::fs::remove_file(self.path.as_path()));
+		}
 		log::debug!(target: "parity-db", "{}: Dropped ref count table", self.id);
 		Ok(())
 	}
